@@ -113,6 +113,7 @@ type exec struct {
 	pvs map[int32]map[int]map[int]bool
 	// own non-nil precommits really sent: (round, block)
 	ownPC    [][2]int
+	cfg      genCfg
 	lastOuts int  // recorder index where the last event's outputs start
 	pending  bool // the last event's outputs are neither committed nor cut yet
 	nextTS   int64
@@ -673,6 +674,9 @@ func (x *exec) proposerOf(round int32) int { return int((1 + int64(round)) % int
 func (x *exec) pickRound(st *tstate) int32 {
 	maxR := int32(2 * x.h.N)
 	r := st.Round
+	if x.rnd.Intn(1000) < x.cfg.JumpP && r < maxR {
+		return r + 1
+	}
 	switch k := x.rnd.Intn(20); {
 	case k < 13:
 	case k < 16:
@@ -818,6 +822,8 @@ type genCfg struct {
 	DoubleP    int
 	TimeoutP   int
 	HeaderCutP int
+	HoldP      int // per mille: a finished block-manager callback is delayed for several events
+	JumpP      int // per mille: vote batches go to the next round
 }
 
 func (x *exec) lastWroteOwn() (int, bool) {
@@ -904,7 +910,31 @@ func (x *exec) step(cfg genCfg) bool {
 		x.evTimeout()
 		return true
 	}
-	pend := x.r.pendingReqs()
+	// the callback goroutine of a finished Propose/ImportBlock may be delayed:
+	// about a third of the callbacks are held back for several events (round
+	// changes, timeouts and late proposals can happen in between)
+	var pend []*bmReq
+	for _, q := range x.r.pendingReqs() {
+		if !q.holdSet {
+			q.holdSet = true
+			if x.rnd.Intn(1000) < x.cfg.HoldP {
+				q.holdUntil = len(x.h.Events) + 2 + x.rnd.Intn(8)
+			}
+		}
+		if q.holdUntil <= len(x.h.Events) {
+			pend = append(pend, q)
+		}
+	}
+	// a stale callback (requested in an earlier round) is most interesting while
+	// the engine sits in prevote / prevote-wait of a later round
+	if (st.Step == 4 || st.Step == 5) && x.rnd.Intn(2) == 0 {
+		for _, q := range x.r.pendingReqs() {
+			if !q.propose && q.flags&module.ImportByForce == 0 && q.round < st.Round {
+				x.evCallback(q, x.rnd.Intn(5) == 0)
+				return true
+			}
+		}
+	}
 	k := x.rnd.Intn(1000)
 	switch {
 	case len(pend) > 0 && k < 550:
@@ -1082,8 +1112,11 @@ func runHistory(w *world, own int, profile string, seed int64) *history {
 	defer r.close()
 	h := &history{N: w.n, Own: own, Profile: profile}
 	x := &exec{r: r, rnd: rnd, h: h, pcs: map[int32]map[int]map[int]bool{}, pvs: map[int32]map[int]map[int]bool{}}
-	cfg := genCfg{Len: 10 + rnd.Intn(14), CrashP: 60, WindowP: 250, DoubleP: 200, TimeoutP: 120, HeaderCutP: 250}
+	cfg := genCfg{Len: 10 + rnd.Intn(14), CrashP: 60, WindowP: 250, DoubleP: 200, TimeoutP: 120, HeaderCutP: 250, HoldP: 330}
 	switch profile {
+	case "stalecb":
+		// delayed callbacks across round changes, few crashes
+		cfg.HoldP, cfg.JumpP, cfg.CrashP, cfg.WindowP, cfg.TimeoutP = 900, 350, 20, 60, 250
 	case "nocrash":
 		cfg.CrashP, cfg.WindowP, cfg.DoubleP = 0, 0, 0
 	case "window":
@@ -1092,7 +1125,26 @@ func runHistory(w *world, own int, profile string, seed int64) *history {
 		cfg.TimeoutP = 400
 		cfg.CrashP = 30
 	}
+	x.cfg = cfg
 	x.evStart()
+	if profile == "stalecb" && x.proposerOf(0) != own && h.Panic == "" {
+		// start with a proposal whose import finishes while its callback is held
+		var b *blockInfo
+		for _, c := range r.blocks {
+			if c.Decodable && !c.ImportErr && c.Parts != nil && c.Proposer == x.proposerOf(0) {
+				b = c
+				break
+			}
+		}
+		if b != nil {
+			x.commitLast()
+			x.evProposal(true, 0, x.proposerOf(0), -1, b)
+			for i := range b.Parts {
+				x.commitLast()
+				x.evPart(true, b, i)
+			}
+		}
+	}
 	for len(h.Events) < cfg.Len+3*h.Crashes && len(h.Events) < 40 && h.Panic == "" {
 		// the outputs of the last event are pending: either a crash cuts them or they happened
 		if x.maybeCrash(cfg) {
